@@ -5,29 +5,47 @@
 use lightning::ln::verif_hooks::pkgtrace as hook;
 
 /// start recording on this thread (and forget what an aborted scenario left behind)
-pub fn enable() { hook::enable(true); let _ = hook::drain(); }
+pub fn enable() { hook::enable(true); let _ = hook::drain(); KINDS.with(|k| k.borrow_mut().clear()); }
 
 fn count(list: &str) -> usize { if list == "-" { 0 } else { list.split(';').count() } }
 fn outpoints_of_pending(p: &str) -> usize { if p == "-" { 0 } else { p.split(';').map(|e| e.rsplit(',').next().map(|i| if i == "-" { 0 } else { i.split('+').count() }).unwrap_or(0)).sum() } }
 
+thread_local! { static KINDS: std::cell::RefCell<std::collections::HashMap<(String, String), String>> = std::cell::RefCell::new(std::collections::HashMap::new()); }
+fn learn_kinds(dest: &str, dump: &str) {
+	// every `txid8:vout~KIND` token of a package dump, under the destination script of the handler that dumped it (both nodes' monitors are traced, and
+	// the same outpoint is a different kind of input for each of them)
+	KINDS.with(|k| { let mut k = k.borrow_mut(); for part in dump.split(|c| c == ',' || c == '+' || c == ';' || c == '/' || c == ' ') { if let Some((o, kind)) = part.split_once('~') { k.insert((dest.to_string(), o.to_string()), kind.to_string()); } } });
+}
+/// `pkgweight` case for a transaction this node broadcast, if every input is a package input of the handler that pays to the transaction's (single) output
+/// script: the translated `package_weight` of its inputs must be at least its real weight
+pub fn weight_case(tx: &bitcoin::Transaction, anchors: bool) -> Option<(String, String, String)> {
+	if tx.output.len() != 1 { return None; }
+	let dest: String = tx.output[0].script_pubkey.as_bytes().iter().map(|b| format!("{:02x}", b)).collect();
+	let kinds: Option<Vec<String>> = KINDS.with(|k| { let k = k.borrow(); tx.input.iter().map(|i| k.get(&(dest.clone(), format!("{}:{}", &i.previous_output.txid.to_string()[..8], i.previous_output.vout))).cloned()).collect() });
+	let kinds = kinds?;
+	if kinds.iter().any(|k| k == "HF" || k.starts_with("HH")) { return None; }      // (pre-signed holder transactions are not built from package_weight)
+	Some((format!("pkgweight {} {} {} {}", anchors as u8, tx.output[0].script_pubkey.len(), tx.weight().to_wu(), kinds.join("+")), "ge".to_string(), format!("pkgweight:inputs{}", kinds.len().min(6))))
+}
+
 /// `(op line, expected answer, class)` for everything recorded since the last call
 pub fn cases() -> Vec<(String, String, String)> {
 	let lines = hook::drain();
+	for l in &lines { if l.starts_with("pre ") || l.starts_with("agg-pre ") { if let Some((body, dest)) = l.rsplit_once(' ') { learn_kinds(dest, body); } } }
 	let mut out = vec![];
 	let mut quiet = 0usize;
 	let mut i = 0;
 	while i < lines.len() {
 		let w: Vec<&str> = lines[i].split(' ').collect();
 		match w[0] {
-			"agg-pre" if i + 1 < lines.len() && lines[i + 1].starts_with("agg-post ") && w.len() == 3 => {
+			"agg-pre" if i + 1 < lines.len() && lines[i + 1].starts_with("agg-post ") && w.len() == 4 => {
 				let post: Vec<&str> = lines[i + 1].split(' ').collect();
 				if post.len() == 3 && count(w[2]) >= 2 {
 					out.push((format!("pkgagg {} {}", w[1], w[2]), post[2].to_string(), format!("pkgagg:{}->{}", count(w[2]).min(6), count(post[2]).min(6))));
 				}
 				i += 2;
 			},
-			"pre" if w.len() == 8 => {
-				// pre <conf> <cur> <pending> <claimable> <events> <locked> <txs>
+			"pre" if w.len() == 9 => {
+				// pre <conf> <cur> <pending> <claimable> <events> <locked> <txs> <destination script>
 				let mut j = i + 1;
 				let mut mid: Option<Vec<&str>> = None;
 				let mut issued: Vec<String> = vec![];
